@@ -17,6 +17,7 @@ EXPLANATION = (
     " Exact form: the text hashed into sd_hash is evaluated structurally to its token normal form for 0..3 disclosures (sa/strmodel.py; join, +, format!, push_str loops, once/chain) and must equal jwt~d0~…~d(n-1)~ on the verifier side (K3) and the holder side (K4); only when a builder is outside that model do the rules fall back to the presence of the three roots. When the key-binding code has been dissolved into the constructor's view, K2 is judged under the both-given valuation (the other valuations are K1's)."
     " C04.K2 (f): the algorithm of the KB-JWT's Validation comes from the KB-JWT's own header (or a constant default), never from the issuer-signed JWT (SDJWTCommon.sign_alg / unverified_sd_jwt, or a parser field derived from them); only the constructor(s) of that Validation value are judged, not what the verifier object was computed from earlier."
     " C04.K2 (b) also requires the audience to be exactly the expected_aud value as given (no normalised or additional alternative)."
+    " C04.K3 entries-decoded: every presented disclosure string is base64url-decoded on every iteration of the loop that fills the digest maps, and a failure is an Err: the alphabet has no `~`, so the `~`-joined sd_hash input determines the presented sequence (a skipped ill-formed entry would let `[d1, d2]` be rewritten to `[\"d1~d2\"]`)."
 )
 ASSUMPTIONS = [
     "jsonwebtoken::decode enforces signature, algorithm family and the Validation's audience settings (9.x contract)",
